@@ -8,8 +8,8 @@ exact length plus an observation window at an arbitrary position (specs/C32xml/x
 arbitrary input position and the arbitrary output position where / by which branch they were consumed / written.
 
   xml.hexCharRefLength, xml.EncodeString, xml.AttributePrint : unbounded (function + loop contracts)
-  xml.bounded.EncodeString : bounded companion (length <= 7, loops unwound, --unwinding-assertions, the real hexCharRefLength
-                             executed): refutation aid with a concrete input string, never counted as proved
+  xml.bounded.EncodeString : (thorough tier) bounded companion (length <= 4, loops unwound, --unwinding-assertions, the real
+                             hexCharRefLength executed): refutation aid with a concrete input string, never counted as proved
 
 add_jobs(ctx, J) appends the units; replay(ctx, ob) is the replayer for units `xml.*`."""
 import os, re
@@ -169,9 +169,39 @@ def build_unit(ctx):
     return path, has_inner, "HAVE_hexCharRefLength" in hcl
 
 
-ARGS = ["--bounds-check", "--pointer-check", "--signed-overflow-check", "--object-bits", "10"]
+ARGS = ["--bounds-check", "--no-pointer-check", "--signed-overflow-check", "--object-bits", "10"]
 CEX = ("in", "len", "olen", "keep", "g_gi", "g_go", "g_gs", "g_i_raw", "g_o_raw", "g_i_pos", "g_o_src", "condenseWhiteSpace", "keepQuotes")
-BOUND = "input length <= 7, output prefix <= 3, loops unwound 9 times with --unwinding-assertions"
+BOUND = "input length <= 4, output prefix <= 3, loops unwound 6 times with --unwinding-assertions"
+
+
+def reach_unit(ctx, unit, sources, entry, enforce, replace, loop_contracts, function):
+    """Vacuity guard for a dfcc unit: the same pipeline with -DXML_REACH, whose harness ends in assert(0); that assertion must FAIL
+    (the end of the harness is reachable through the assumed preconditions, replaced contracts and loop invariants)."""
+    only = os.environ.get("VERIF_ONLY")
+    if only and not re.search(only, unit):
+        return
+    d = os.path.join(ctx.out, unit)
+    os.makedirs(d, exist_ok=True)
+    gb, linked, inst = os.path.join(d, "unit.gb"), os.path.join(d, "linked.gb"), os.path.join(d, "inst.gb")
+    t_all = 0.0
+    cmds = [["goto-cc", "-c", sources[0], "-o", gb, "-DVERIF_CBMC", "-DXML_REACH"], ["goto-cc", "--function", entry, gb, "-o", linked],
+            ["goto-instrument", "--dfcc", entry, "--enforce-contract", enforce] + sum([["--replace-call-with-contract", r] for r in replace], [])
+            + (["--apply-loop-contracts"] if loop_contracts else []) + [linked, inst]]
+    for cmd in cmds:
+        rc, o, e, t = run(cmd, 300)
+        t_all += t
+        if rc != 0:
+            ctx.add(Obligation(unit + ".build", unit, "goto-cc", "undecided", t_all, (o + e)[-400:], function=function))
+            return
+    rc, o, e, t = run(["cbmc", inst, "--no-standard-checks", "--object-bits", "10", "--property", entry + ".assertion.1"], 600)
+    t_all += t
+    m = re.search(r"vacuity guard: the end of the harness is reachable: (\w+)", o)
+    ok = bool(m) and m.group(1) == "FAILURE"
+    ctx.add(Obligation(unit + ":reachable", unit, "cbmc+minisat", "discharged" if ok else "undecided", t_all,
+                       "vacuity guard: assert(0) at the end of the harness " + ("fails as it must (reachable)" if ok else "does NOT fail (vacuous unit?) / no answer: " + (m.group(1) if m else (o + e)[-200:])),
+                       function=function))
+    with ctx.lock:
+        ctx.units.append(dict(unit=unit, backend="cbmc+minisat (reachability of the harness end)", entry=entry, obligations=1, discharged=int(ok), solver_s=round(t_all, 2)))
 
 
 def add_jobs(ctx, J):
@@ -182,14 +212,19 @@ def add_jobs(ctx, J):
         J(cbmc_unit, "xml.hexCharRefLength", [unit_c], "h_hexCharRefLength", enforce="hexCharRefLength", replace=[], loop_contracts=True,
           cbmc_args=ARGS, require_props=[r"postcondition\.1$"] + loopreq, min_obligations=10, function="hexCharRefLength", timeout=300, cex_vars=CEX)
     J(cbmc_unit, "xml.EncodeString", [unit_c], "h_EncodeString", enforce="TiXmlBase_EncodeString", replace=["hexCharRefLength_det"], loop_contracts=True,
-      cbmc_args=ARGS, require_props=[r"postcondition\.8$"] + loopreq, min_obligations=40, function="TiXmlBase::EncodeString", timeout=300, cex_vars=CEX)
+      cbmc_args=ARGS, require_props=[r"postcondition\.8$"] + loopreq, min_obligations=40, function="TiXmlBase::EncodeString", timeout=600, cex_vars=CEX)
     J(cbmc_unit, "xml.AttributePrint", [unit_c], "h_AttributePrint", enforce="TiXmlAttribute_Print",
       replace=["TiXmlBase_EncodeString", "xs_find_char"], cbmc_args=ARGS, require_props=[r"postcondition\.12$"], min_obligations=20,
       function="TiXmlAttribute::Print", timeout=300, cex_vars=CEX)
-    J(cbmc_unit, "xml.bounded.EncodeString", [unit_c], "h_EncodeString_bounded", no_dfcc=True,
-      cbmc_args=ARGS + ["--unwind", "9", "--unwinding-assertions"], cc_args=["-DXML_BOUNDED_HARNESS"], bounded=BOUND,
-      require_props=[r"assertion\.\d+$", r"unwind"], min_obligations=20, function="TiXmlBase::EncodeString", timeout=300, cex_vars=CEX)
-    J(cover_unit, "xml.cover", [unit_c], "h_xml_cover", cc_args=["-DXML_COVER"], cbmc_args=["--unwind", "9"], expect_min=3, function="EncodeString model reachability")
+    if ctx.tier == "thorough":      # refutation aid with a concrete input string; as a proof it is slower than the inductive unit (about 3 min)
+        J(cbmc_unit, "xml.bounded.EncodeString", [unit_c], "h_EncodeString_bounded", no_dfcc=True,
+          cbmc_args=ARGS + ["--unwind", "6", "--unwinding-assertions"], cc_args=["-DXML_BOUNDED_HARNESS", "-DXML_BOUND=4"], bounded=BOUND,
+          require_props=[r"assertion\.\d+$", r"unwind"], min_obligations=20, function="TiXmlBase::EncodeString", timeout=900, cex_vars=CEX)
+    if has_hcl:
+        J(reach_unit, "xml.reach.hexCharRefLength", [unit_c], "h_hexCharRefLength", "hexCharRefLength", [], True, "hexCharRefLength")
+    J(reach_unit, "xml.reach.EncodeString", [unit_c], "h_EncodeString", "TiXmlBase_EncodeString", ["hexCharRefLength_det"] if has_hcl else [], True, "TiXmlBase::EncodeString")
+    J(reach_unit, "xml.reach.AttributePrint", [unit_c], "h_AttributePrint", "TiXmlAttribute_Print", ["TiXmlBase_EncodeString", "xs_find_char"], False, "TiXmlAttribute::Print")
+    J(cover_unit, "xml.cover", [unit_c], "h_xml_cover", cc_args=["-DXML_COVER"], cbmc_args=["--unwind", "8"], expect_min=3, function="EncodeString model reachability")
     ctx.extra["xml_part"] = dict(inner_loop_in_pass_through_branch=has_inner, hexCharRefLength_present=has_hcl)
     ctx.assume("XML unit: an input String (std::string) is a byte buffer of at most 10^8 characters, distinct from the output string; length(), operator[] (index < length is an OBLIGATION, "
                "although C++11 also allows reading the terminator at [size()]) and c_str() read it.  An output String is append-only in the code under contract and is modelled by its exact "
